@@ -11,9 +11,8 @@ def main():
                 'ids, restarts, control messages; every third history adversarial (non-monotone ids, truncated topic lists, illegal '
                 'call states); recv timeouts 0/100/250/None; per-item outputs and state digests compared with the Gallina machines; '
                 'non-trivial = at least one set returned / one publish; distinct by hash of the item list')
-    run.partial = ['C01_complete_per_source (a synchronized source contributes exactly its subscribed topics, never a subset) is checked by the '
-                   "implementation-side oracle ('partial-set') on well-formed publisher streams, not yet proved",
-                   'C01_id_carried (MQ glue) and the tee-rejoin corollary over the network model: see C03 evidence',
+    run.partial = ['the tee-rejoin corollary ("every rejoined set descends from one original frame") over the network model is explored in pipeline mode (C03 check, rejoin topology), not proved; '
+                   'its ingredients are: C01_no_mixed_ids, C01_complete_per_source, C01_publisher_wf, C01_id_carried',
                    "a publisher killed between two parts of one publish, and topic names containing '/', are outside the model's network rules"]
     run.assumptions = ['ghost provenance (id, source) recorded when a wire message is read identifies the upstream publish',
                        'poll answers report only registered, non-empty sockets, each at most once (anything else ends the run: Dead)']
